@@ -153,6 +153,24 @@ def battery(fqe, seed, tier):
             out[f"cirq:{case}"] = enc(fqe.to_cirq(w))
         except Exception as exc:
             out[f"cirq:{case}"] = {"raise": type(exc).__name__}
+        # sector detection and import: amplitudes 2% to a factor 40 above and 2% to a factor 2 below a threshold of any size
+        if spec["norb"] <= 3:
+            try:
+                vq = fqe.to_cirq(w)
+                nzq = [i for i in range(vq.size) if vq[i] != 0]
+                if nzq:
+                    thr = [2.0 ** -18, 2.0 ** -7, 0.25, 4.0][case % 4]
+                    vv = numpy.zeros_like(vq)
+                    facs = [1.02, 1.5, 0.5, 40.0, 0.98, 1.2]
+                    for n_, i in enumerate(nzq):
+                        ph = vq[i] / abs(vq[i])
+                        vv[i] = ph * thr * facs[n_ % len(facs)]
+                    back = fqe.from_cirq(vv, thresh=thr)
+                    out[f"detect:{case}"] = enc(numpy.array([[int(k[0]), int(k[1])] for k in sorted(back.sectors())], dtype=numpy.float64).reshape(-1, 2))
+                    for key in sorted(back.sectors()):
+                        out[f"import:{case}:{key}"] = enc(back.get_coeff(key))
+            except Exception as exc:
+                out[f"detect:{case}"] = {"raise": type(exc).__name__}
         if case % 10 == 0 and spec["norb"] <= 2:
             try:
                 from openfermion import parity_code
